@@ -366,6 +366,14 @@ func c05(ctx *Ctx) (*Outcome, error) {
 	for i := 0; i < 30; i++ {
 		cases = append(cases, fractionalIntBoundCase(i))
 	}
+	for i := 0; i < 24; i++ {
+		// same-named integer definitions with different bounds, without and with the flag
+		c := sizedTwinCase(i % 12)
+		if i >= 12 {
+			c.Args = []string{"--min-sized-ints"}
+		}
+		cases = append(cases, c)
+	}
 	// every keyword pattern once more with --min-sized-ints: the flag changes types, never what a bound means
 	for k, sc := range numericStrata(ctx, "C05-sized", false, []string{"--min-sized-ints"}) {
 		if k%2 == 0 {
